@@ -46,6 +46,8 @@ def load_findings():
 
 _G = {}
 EARLY_STOP = {"skipped": 0}
+# properties whose replay harness is single-threaded and deterministic: run as a bounded stand-in on every check
+BOUNDED_ALWAYS = {"C01", "C02", "C03", "C04", "C05", "C06", "C07", "C08", "C09", "C10", "C11", "C16", "C17", "C18", "C19", "C20"}
 
 
 def _init_worker(tier, seed):
@@ -178,6 +180,16 @@ def main(argv=None):
     if args.only:
         targets = [t for t in targets if args.only in t]
     lemmas = [i for i, l in enumerate(R.lemmas) if prop in l["props"]]
+    # bounded stand-in (labelled, never counted as proved): the property's replay harness enumerates small scenarios on the real
+    # code while the proof obligations are discharged; only for the deterministic single-threaded harnesses
+    harness_proc = None
+    harness_path = os.path.join(HERE, "replay", "%s.py" % prop)
+    if prop in BOUNDED_ALWAYS and os.path.exists(harness_path) and not args.only:
+        import subprocess
+        budget = "20" if tier == "quick" else "120"
+        env = dict(os.environ, PYTHONPATH=os.environ.get("VERIF_REPO", "/repo"), VERIF_SEED=str(seed), PYTHONDONTWRITEBYTECODE="1")
+        harness_proc = (subprocess.Popen(["/venv/bin/python", harness_path, "--budget", budget], stdout=subprocess.PIPE,
+                                         stderr=subprocess.STDOUT, text=True, env=env, cwd="/tmp"), budget, time.time())
     outs = []
     try:
         with mp.get_context("fork").Pool(args.jobs, initializer=_init_worker, initargs=(tier, seed)) as pool:
@@ -229,7 +241,25 @@ def main(argv=None):
             res.append(dict(name="scan:%s/%s" % (name, label), status="proved" if ok else "refuted", backend="ast-scan",
                             time_s=0.0, kind="scan", line=0, detail=detail, model=None, witness={}, size=len(detail)))
         outs.append(dict(target="scan:" + name, results=res, error=None, kind="scan", wall_s=round(time.time() - ts, 3)))
-    return report.finish(prop, tier, seed, R, outs, t0, update_baseline=args.update_baseline, skipped=EARLY_STOP["skipped"])
+    bounded = None
+    if harness_proc is not None:
+        proc, budget, th = harness_proc
+        try:
+            out_text, _ = proc.communicate(timeout=int(budget) * 3 + 60)
+            rc_h = proc.returncode
+        except Exception:
+            proc.kill()
+            out_text, rc_h = "harness timed out", 2
+        lines_h = [l for l in (out_text or "").strip().splitlines() if l.strip()]
+        bounded = dict(tool="replay/%s.py (enumeration of small scenarios on the real code, oracle from the statement)" % prop,
+                       bound="budget %s s, seed %d" % (budget, seed), wall_s=round(time.time() - th, 1), exit=rc_h,
+                       summary=lines_h[-1][:300] if lines_h else "")
+        if rc_h == 1:
+            try:
+                bounded["failing"] = json.loads(lines_h[-1])
+            except Exception:
+                bounded["failing"] = dict(scenario=None, observed=(out_text or "")[-1500:], required=None)
+    return report.finish(prop, tier, seed, R, outs, t0, update_baseline=args.update_baseline, skipped=EARLY_STOP["skipped"], bounded=bounded)
 
 
 if __name__ == "__main__":
